@@ -10,3 +10,4 @@ import WowVerif.Props.C11
 import WowVerif.Props.C20
 import WowVerif.Props.C19
 import WowVerif.Props.C01
+import WowVerif.Props.C02
